@@ -81,11 +81,12 @@ def stateWritesOk (t : List StateWrite) : Bool :=
 coarsest key, stands for "some state of unknown shape") -/
 def memoOfTable (t : List StateWrite) : Option (List KeyPart) := if stateWritesOk t then none else some []
 
-/-- **no early exit** on `forward`'s path: one `return`, at the end — except `uniform_fill`'s modelled early return
-(nothing to draw) and the abstract `split_method` of the base class, which only raises -/
+/-- **no exit that skips steps** on `forward`'s path.  A row is (function, number of `return`s after which statements
+that do something would still follow, every path ends in an explicit `return`/`raise`).  Returns of a constant and
+`if c: return a` / `return b` decision trees (a conditional expression in statement form, in whatever helper) do not
+count; `uniform_fill`'s modelled early return (nothing to draw) is the one admitted exception. -/
 def exitsOk (t : List (String × Nat × Bool)) : Bool :=
-  t.all fun r => (r.2.1 == 1 && r.2.2) || (r.1 == "fill:uniform_fill" && r.2.1 == 2 && r.2.2) ||
-    (r.1 == "MaskSplitter.split_method" && r.2.1 == 0)
+  t.all fun r => (r.2.1 == 0 && r.2.2) || (r.1 == "fill:uniform_fill" && r.2.1 == 1 && r.2.2)
 
 /-- every method `forward` can reach is in the scanned set (so the table speaks about all of them) -/
 def reachCovered (scanned reach : List String) : Bool := reach.all scanned.contains
